@@ -136,6 +136,161 @@ def print_table(ctx, enum):
     return None, {}
 
 
+OPS = {"<": lambda a, e: a < e, "<=": lambda a, e: a <= e, "==": lambda a, e: a == e, ">=": lambda a, e: a >= e, ">": lambda a, e: a > e}
+WELL_FORMED = [(op + sp1 + "3" + sp2, op) for op in OPS for sp1, sp2 in (("", ""), (" ", " "))]
+MALFORMED = ["3", "=3", "<", "<= x", "", "  ", "< 3 4", "<3x", "=<3", "!=3"]
+
+
+def check_ops_model(ctx, out, rule="C09.ops", only_malformed=False):
+    """line-count on a small model (engine.casewalk + engine.strmodel): the attribute value is a concrete
+    string, the number of non-blank content lines a concrete number. For each well-formed expression
+    `OP 3` (with and without spaces, 5 operators) and each count in {2, 3, 4}: a violation is built exactly
+    when `count OP 3` is false, and no error is returned. For each malformed expression (no operator, an
+    unknown one, no number, trailing garbage): an error is returned and nothing is accepted.
+    True/False if decided, None if the model could not follow the code."""
+    from engine import casewalk as CW
+    from engine import listmodel as LM
+    from engine import strmodel as SM
+    from rules import linemodel as LMo
+    vb = ctx.validate_body(NAME_LC, inline=True, skip=lambda cb: ctx.domain_api(cb), tag="domain", sugar=True)
+    if vb is None:
+        return None
+    h, lblocks, drivers = LMo.block_loop(ctx, vb)
+    vsites = LMo.violation_sites(ctx, vb)
+    if h is None or not drivers or not vsites:
+        return None
+    std = CW.std_hooks()
+    lm = LM.hooks()
+    sm = SM.hooks()
+    cases = []
+    if not only_malformed:
+        for expr, op in WELL_FORMED:
+            for actual in (2, 3, 4):
+                cases.append((expr, op, actual))
+        # an empty block counts zero lines (it is not skipped)
+        for expr, op in ((">=1", ">="), ("<1", "<"), ("==0", "=="), (">0", ">")):
+            cases.append((expr, op, "empty"))
+    for expr in MALFORMED:
+        cases.append((expr, None, 3))
+    n = 0
+    used_count_hook = []
+    site_args = {}
+    print_state = [None]
+    for expr, op, actual in cases:
+        seen = set()
+        empty = actual == "empty"
+        if empty:
+            actual = 0
+
+        def hook(w, bb, t, argv, env):
+            nm = callee_name(t)
+            a0 = w.deref_val(env, argv[0]) if argv else CW.TOP
+            if bb in drivers:
+                if env.get(-4) is None:
+                    env[-4] = CW.const(1)
+                    return CW.adt("std::option::Option", "Some", 1, [("0", CW.sym("BLOCK"))])
+                return "diverge"
+            if re.search(r"HashMap::<K, V, S, A>::(get|contains_key)$", nm) and len(argv) > 1 and w.deref_val(env, argv[1]) == CW.const(NAME_LC):
+                return CW.const(1) if nm.endswith("contains_key") else CW.adt("std::option::Option", "Some", 1, [("0", CW.const(expr))])
+            if bb in vsites:
+                site_args[(expr, actual)] = [w.deref_val(env, a) for a in argv]
+            if re.search(r"blocks::Block::content$", nm):
+                return CW.sym("CONTENT")
+            if re.search(r"<impl str>::is_empty$", nm) and a0 == CW.sym("CONTENT"):
+                return CW.const(1 if empty else 0)
+            if re.search(r"Iterator>?::count$", nm) and a0[0] != "iter":
+                used_count_hook.append(1)
+                return CW.const(actual)
+            # a count written as an explicit loop: `actual` non-blank lines with a blank one in between
+            if re.search(r"<impl str>::lines$", nm) and a0 == CW.sym("CONTENT"):
+                ls = [CW.sym("LINE", i) for i in range(actual)]
+                return LM.itr(tuple(ls[:1] + [CW.sym("BLANK")] + ls[1:]) if ls else (() if empty else (CW.sym("BLANK"),)))
+            if re.search(r"<impl str>::trim(_start|_end)?$", nm) and a0[0] == "sym" and a0[1] in ("LINE", "BLANK"):
+                return CW.sym("trimmed", a0)
+            if re.search(r"<impl str>::is_empty$", nm) and a0[0] == "sym" and a0[1] == "trimmed":
+                return CW.const(1 if a0[2][1] == "BLANK" else 0)
+            r = sm(w, bb, t, argv, env)
+            if r is not None:
+                return r
+            r = lm(w, bb, t, argv, env)
+            if r is not None:
+                return r
+            return std(w, bb, t, argv, env)
+        w = CW.Walk(ctx, vb, [hook], max_states=40000)
+
+        outcomes = set()
+
+        def on_visit(bb, env):
+            if bb in vsites:
+                seen.add("violation")
+                env[-6] = CW.const(1)
+            tm = vb.blocks[bb]["term"]
+            if tm and tm["k"] == "return":
+                r0 = env.get(0, CW.TOP)
+                if r0[0] == "adt" and r0[2] == "Err":
+                    seen.add("error")
+                    if env.get(-6) is None:
+                        outcomes.add("error")
+                else:
+                    seen.add("returned")
+        w.on_visit = on_visit
+        first = [True]
+
+        def stop(bb, env):
+            if bb == h:
+                if first[0]:
+                    first[0] = False
+                    return False
+                seen.add("accepted")
+                outcomes.add("violation" if env.get(-6) is not None else "clean")
+                return True
+            return False
+        try:
+            w.explore(h, {}, stop)
+        except CW.Limit:
+            return None
+        # the model is exact only if the walk was deterministic: one outcome per case (an `error` outcome
+        # besides is the severity / serialisation error path of building a violation)
+        if len(outcomes - {"error"}) > 1 or (op is not None and not outcomes):
+            return None
+        if op is None:
+            if "accepted" in seen or "violation" in seen or "error" not in seen:
+                out.viol(rule, "%s|malformed|%s" % (rule, expr.strip() or "blank"), ctx.where(vb),
+                         "line-count=%r is malformed (no operator / unknown operator / no number / trailing text), but the block is %s; expected: the run fails with an error" % (expr, " and ".join(sorted(seen - {"error"})) or "not rejected"))
+            else:
+                n += 1
+            continue
+        bound = int(re.search(r"\d+", expr).group(0))
+        want = not OPS[op](actual, bound)
+        got = "violation" in seen
+        if "error" in seen and "accepted" not in seen and not got:
+            out.viol(rule, "%s|rejected|%s" % (rule, expr.strip()), ctx.where(vb), "line-count=%r is a documented expression but is rejected with an error" % expr)
+        elif got != want:
+            out.viol(rule, "%s|verdict|%s|%d" % (rule, expr.strip(), actual), ctx.where(vb),
+                     "line-count=%r with %s: a violation is %s; expected %s (a violation exactly when `%d %s %d` is false)" % (expr, "an empty block (zero lines)" if empty else "%d non-blank lines" % actual, "built" if got else "not built", "one" if want else "none", actual, op, bound))
+        else:
+            n += 1
+            if got and print_state[0] is not False:
+                # the diagnostic carries the operator: among the constant arguments of the violation
+                # constructor there is the text of the operator the user wrote
+                strs = [a[1] for a in site_args.get((expr, actual), []) if a[0] == "const" and isinstance(a[1], str)]
+                if op in strs:
+                    print_state[0] = True
+                elif any(s in OPS for s in strs):
+                    out.viol(rule, "%s|print|%s" % (rule, op), ctx.where(vb),
+                             "line-count=%r: the violation is built with the operator text %r instead of %r" % (expr, [s for s in strs if s in OPS][0], op))
+                else:
+                    print_state[0] = False      # the operator reaches the constructor in another form: structural rule
+    ctx.__dict__["_c09_print_by_model"] = print_state[0] is True
+    ctx.__dict__["_c09_count_by_model"] = not used_count_hook
+    ctx.__dict__["_c09_site_args"] = site_args
+    out.inst(rule, n, len(cases), ["%d well-formed (5 operators x spacing x counts 2,3,4) + %d malformed expressions" % (len(cases) - len(MALFORMED), len(MALFORMED))], exhaustive=True)
+    return n == len(cases)
+
+
+NAME_LC = "line-count"
+
+
 def run(ctx, out, tier):
     name = "line-count"
     # helpers are looked through (virtual inlining), except the constraint parser, which is a table
@@ -158,8 +313,20 @@ def run(ctx, out, tier):
     variants = {v["vi"]: v["name"] for v in ctx.facts.adts[enum]["variants"]}
     vname_to_idx = {v: k for k, v in variants.items()}
 
+    # the operator tables and the verdict on a small model (concrete expressions and counts); the structural
+    # tables below are computed in any case (later rules use them) but only reported when the model
+    # cannot follow the code
+    tr = out.trial()
+    try:
+        decided = check_ops_model(ctx, tr)
+    except Exception as e:      # noqa: BLE001
+        ctx.view_fallbacks.append("C09.ops: small-model analysis failed (%s: %s)" % (type(e).__name__, e))
+        decided = None
+    if decided is not None:
+        out.adopt(tr)
+    o2 = out if decided is None else out.trial()
     # ---------------------------------------------------------------- C09.ops
-    rows = parse_table(ctx, out, pf, enum)
+    rows = parse_table(ctx, o2, pf, enum)
     cmp_tab, sw_bb = compare_table(ctx, vb, enum)
     pbody, prt = print_table(ctx, enum)
     n_rows = 0
@@ -168,30 +335,30 @@ def run(ctx, out, tier):
     parse_map = {}
     for (bi, prefix, variant, t) in rows:
         if prefix is None or variant is None:
-            out.viol("C09.ops", "C09.ops|parse|unreadable-row", ctx.where(pf, t["span"]),
+            o2.viol("C09.ops", "C09.ops|parse|unreadable-row", ctx.where(pf, t["span"]),
                      "a strip_prefix test of the constraint parser has no constant prefix or does not select an operator variant")
             continue
         for earlier in seen_prefixes:
             if prefix.startswith(earlier):
-                out.viol("C09.ops", "C09.ops|parse|shadow|%s-after-%s" % (prefix, earlier), ctx.where(pf, t["span"]),
+                o2.viol("C09.ops", "C09.ops|parse|shadow|%s-after-%s" % (prefix, earlier), ctx.where(pf, t["span"]),
                          "operator prefix %r is tested after %r, which is a prefix of it: %r can never be recognised (it parses as %r followed by garbage)" % (prefix, earlier, prefix, earlier))
         seen_prefixes.append(prefix)
         parse_map[prefix] = variant
     for text, meaning in MEANING.items():
         variant = parse_map.get(text)
         if variant is None:
-            out.viol("C09.ops", "C09.ops|parse|missing|%s" % text, ctx.where(pf), "operator %r is not recognised by the constraint parser" % text)
+            o2.viol("C09.ops", "C09.ops|parse|missing|%s" % text, ctx.where(pf), "operator %r is not recognised by the constraint parser" % text)
             continue
         vi = vname_to_idx.get(variant)
         c = cmp_tab.get(vi)
         if c is None:
-            out.viol("C09.ops", "C09.ops|compare|missing|%s" % text, ctx.where(vb),
+            o2.viol("C09.ops", "C09.ops|compare|missing|%s" % text, ctx.where(vb),
                      "no comparison found for the operator variant selected by %r (%s): the compare table could not be read off the validator (switch on the operator with one comparison per arm expected)" % (text, variant))
         else:
             n_rows += 1
             op, a, b, blk, dst = c
             if op != meaning:
-                out.viol("C09.ops", "C09.ops|compare|%s" % text, ctx.where(vb),
+                o2.viol("C09.ops", "C09.ops|compare|%s" % text, ctx.where(vb),
                          "operator %r (variant %s) is evaluated with %s instead of %s" % (text, variant, op, meaning))
             la = ctx.prov.read_operand(vb, a)
             lb = ctx.prov.read_operand(vb, b)
@@ -199,24 +366,25 @@ def run(ctx, out, tier):
             b_is_bound = P.has_call(lb, re.escape(pf.id) + "$")
             a_is_bound = P.has_call(la, re.escape(pf.id) + "$") and not P.has_call(la, r"Iterator>?::count$")
             if not (a_is_count and b_is_bound) or a_is_bound:
-                out.viol("C09.ops", "C09.ops|operands|%s" % text, ctx.where(vb),
+                o2.viol("C09.ops", "C09.ops|operands|%s" % text, ctx.where(vb),
                          "the comparison for %r does not compare (actual count, parsed bound) in that order: left derives from [%s], right from [%s]"
                          % (text, util.origins_text(la, 4), util.origins_text(lb, 4)))
             samples.append("%r -> %s -> %s(actual, expected)" % (text, variant, op))
         p = prt.get(vi)
+        o3 = o2 if ctx.__dict__.get("_c09_print_by_model") else out
         if p is None:
-            out.viol("C09.ops", "C09.ops|print|missing|%s" % text, ctx.where(pbody) if pbody else "-",
+            o3.viol("C09.ops", "C09.ops|print|missing|%s" % text, ctx.where(pbody) if pbody else "-",
                      "no text found for the operator variant selected by %r" % text)
         else:
             n_rows += 1
             if p != text:
-                out.viol("C09.ops", "C09.ops|print|%s" % text, ctx.where(pbody),
+                o3.viol("C09.ops", "C09.ops|print|%s" % text, ctx.where(pbody),
                          "operator %r (variant %s) is printed as %r in the diagnostic" % (text, variant, p))
         n_rows += 1
     extra = set(parse_map) - set(MEANING)
     for e in sorted(extra):
-        out.viol("C09.ops", "C09.ops|parse|extra|%s" % e, ctx.where(pf), "the constraint parser accepts an undocumented operator %r" % e)
-    out.inst("C09.ops", n_rows, 15, samples, exhaustive=True,
+        o2.viol("C09.ops", "C09.ops|parse|extra|%s" % e, ctx.where(pf), "the constraint parser accepts an undocumented operator %r" % e)
+    o2.inst("C09.ops", n_rows, 15, samples, exhaustive=True,
              note="5 operators x {parse, compare, print}: all rows of the three tables")
 
     # ---------------------------------------------------------------- C09.violate
@@ -236,15 +404,15 @@ def run(ctx, out, tier):
                 if vals == {0}:
                     good = True
                 else:
-                    out.viol("C09.violate", "C09.violate|polarity", ctx.where(vb, t["span"]),
+                    o2.viol("C09.violate", "C09.violate|polarity", ctx.where(vb, t["span"]),
                              "the line-count violation is pushed when the comparison is TRUE (branch values %s), i.e. when the bound is satisfied" % sorted(map(str, vals)))
                     good = True
         if good:
             ok_n += 1
         else:
-            out.viol("C09.violate", "C09.violate|unguarded", ctx.where(vb, t["span"]),
+            o2.viol("C09.violate", "C09.violate|unguarded", ctx.where(vb, t["span"]),
                      "the line-count violation push is not control-dependent on the result of the operator comparison")
-    out.inst("C09.violate", ok_n, 1, ["push@%s" % ctx.where(vb, t["span"]) for bi, t in pushes])
+    o2.inst("C09.violate", ok_n, 1, ["push@%s" % ctx.where(vb, t["span"]) for bi, t in pushes])
 
     # ---------------------------------------------------------------- C09.noskip
     # a block that carries the attribute is always compared: from the point where the attribute was found,
@@ -272,6 +440,10 @@ def run(ctx, out, tier):
     out.inst("C09.noskip", n_ns, 1, ["attribute present -> comparison (or error) before the next block"])
 
     # ---------------------------------------------------------------- C09.count
+    # (decided by the small model when the count was computed there from the modelled content lines -
+    #  an explicit loop or an evaluated filter closure - instead of being supplied for `count()`)
+    count_by_model = decided is not None and ctx.__dict__.get("_c09_count_by_model")
+    o_real, out = out, (out.trial() if count_by_model else out)
     n_cnt = 0
     cs = []
     for v, c in cmp_tab.items():
@@ -329,6 +501,9 @@ def run(ctx, out, tier):
     # (the `0 if content.is_empty()` special case is optional: `"".lines()` is empty anyway; when it is
     # there, it must be guarded - checked above)
     out.inst("C09.count", n_cnt, 2, ["actual := 0 if content.is_empty() else content.lines().filter(|l| !l.trim().is_empty()).count()"])
+    out = o_real
+    if count_by_model:
+        out.inst("C09.count", 2, 2, ["small model: the compared count is the number of non-blank content lines (0 for an empty block)"])
 
     # ---------------------------------------------------------------- C09.bound (number = whole trimmed remainder)
     n_b = 0
@@ -367,7 +542,12 @@ def run(ctx, out, tier):
                     for pi in params:
                         if pi - 1 < len(t["args"]):
                             site |= ctx.prov.read_operand(vb, t["args"][pi - 1])
-                    if fname == "actual":
+                    sa = (ctx.__dict__.get("_c09_site_args") or {}).get(("<3", 4)) if decided is not None else None
+                    if sa is not None and fname in ("actual", "expected") and len(params) == 1 and params[0] - 1 < len(sa):
+                        # small model, case `<3` with 4 lines: the argument this field is built from carries 4 / 3
+                        got = sa[params[0] - 1]
+                        good = got == ("const", 4 if fname == "actual" else 3)
+                    elif fname == "actual":
                         good = P.has_call(site, r"Iterator>?::count$") and not P.has_call(site, re.escape(pf.id) + "$")
                     elif fname == "expected":
                         good = P.has_call(site, re.escape(pf.id) + "$") and not P.has_call(site, r"Iterator>?::count$")
